@@ -251,6 +251,26 @@ def gen_add(rng, tier):
                        clampi(IMAX - i64(v)), clampi(IMAX - i64(v) + 1), clampi(IMIN - i64(v)),
                        clampi(IMIN - i64(v) - 1)):
                 cases.add((v, am))
+    # carries and borrows that stop INSIDE a wide value (no change of width, high bytes untouched): the low j bytes
+    # are all ones (or all zeros) below an arbitrary byte j of a w-byte value; small, 16-bit and 32-bit amounts
+    for w in range(2, 9):
+        for j in range(1, w):
+            for _ in range(2 if tier == "quick" else 12):
+                top = rng.randint(1, 255) if w < 8 else rng.randint(1, 127)
+                mid = rng.getrandbits(8 * max(0, w - 1 - j)) if w - 1 - j > 0 else 0
+                bytej = rng.randint(1, 0xFE)
+                if j == w - 1:
+                    hi = min(bytej, top) or 1
+                else:
+                    hi = (top << (8 * (w - 1 - j))) | (mid & ~0xFF) | bytej
+                ones = (1 << (8 * j)) - 1
+                for r in (0, 1, 200, 32766):
+                    if r <= ones:
+                        for am in (r + 1, r + 2, r + 256, 32767):
+                            if am <= 32767 or r == 0:
+                                cases.add((((hi << (8 * j)) | (ones - r)) & M64, am))
+                        for am in (-(r + 1), -(r + 2), -(r + 256), -32768):
+                            cases.add((((hi << (8 * j)) | r) & M64, am))
     n = 3000 if tier == "quick" else 100000
     for _ in range(n):
         v = logu(rng)
@@ -1111,6 +1131,15 @@ def gen_oom(rng, tier):
                 ops.append(f"oom.pfor op=enc t={hx(t)} @o:{hx(rng.getrandbits(60))}:{hx(n)}:{hx(rng.choice([0, 1000]))}:{hx(rng.choice([255, 65535, 1 << 40]))}")
             ops.append(f"oom.pfor op=enc t=5f @c:1:{hx(n)}:{hx(rng.getrandbits(20))}:0")
             ops.append(f"oom.pfor op=compute t=5f {arr_spec(rng, n)}")
+    # a long-lived dictionary re-built across an index-width class (1-byte indices <-> 2-byte indices, growing
+    # past the current capacity and shrinking): a failed re-build must leave the OLD dictionary fully usable
+    for a, b in [(200, 300), (300, 200), (255, 257), (256, 257), (16, 300), (257, 256)] + ([] if quick else [(65000, 66000), (300, 70000)]):
+        base = rng.choice([0, 1000, 1 << 40])
+        va = [base + 3 * i for i in range(a)]
+        vb = [base + 5 * i + 1 for i in range(b)]
+        rng.shuffle(va)
+        rng.shuffle(vb)
+        ops.append(f"oom.dictbuild {explicit(va)} {explicit(vb)}")
     # float: all-special arrays have no mantissa block
     specials = [0, 1 << 63, 0x7FF0000000000000, 0xFFF0000000000000, 0x7FF8000000000001, 1, (1 << 52) - 1]
     for n in [1, 3, 8, 40]:
